@@ -55,6 +55,7 @@ def _frame(framing, count, req, fill=0, at=None):
     return wire.aa55_resp('0186', pl)
 
 
+T_CTOR = [None]         # (set by job(): the timeout the object was CONSTRUCTED with, when the application changed it afterwards)
 HOST_AS = [None]        # (set by job(): the inverter's host as the application configured it - a name, a short spelling)
 
 
@@ -62,7 +63,9 @@ def execute(framing, count, plan, ka, R=1, T=1.0):
     world.reset()
     peer = PlanPeer(plan)
     loop = KLoop(peer)
-    p = make_protocol('tcp' if framing == 'tcp' else 'udp', T, R, ka, host=HOST_AS[0])
+    p = make_protocol('tcp' if framing == 'tcp' else 'udp', T if T_CTOR[0] is None else T_CTOR[0], R, ka, host=HOST_AS[0])
+    if T_CTOR[0] is not None:
+        p.timeout = T       # the public attribute, changed after construction: the timeout in force is T
     cmd = p.read_command(100, count) if framing != 'aa55' else gp.Aa55ProtocolCommand("010600", "0186")
     st, res = loop.run(_exec(cmd, p))
     if st == 'hang':
@@ -375,6 +378,17 @@ def job(j):
                 for clause, cause in v2:
                     key = f'{clause}/{framing}/ka={int(ka)}/pos:{case[4]}/timeout={T_}'
                     vio.setdefault(key, []).append((clause, case + (('T', T_),), cause))
+            # the timeout was changed after the object was constructed (built with 0.2 s / 5 s, then set to 1 s)
+            for t0 in (0.2, 5):
+                T_CTOR[0] = t0
+                try:
+                    v2, o2 = run_case(case, ka)
+                finally:
+                    T_CTOR[0] = None
+                n += 1
+                for clause, cause in v2:
+                    key = f'{clause}/{framing}/ka={int(ka)}/pos:{case[4]}/timeout-changed-after-construction'
+                    vio.setdefault(key, []).append((clause, case + (('tctor', t0),), cause))
             # the inverter's host configured as a name / a short spelling (the kernel model resolves it; datagrams come from
             # the resolved address)
             for host in ('inverter.local', '10.0.2'):
@@ -405,18 +419,22 @@ def job(j):
         if case and isinstance(case[-1], tuple) and case[-1][0] == 'T':
             Tq = case[-1][1]
             case = case[:-1]
-        hostq = None
+        hostq = tctorq = None
         if case and isinstance(case[-1], tuple) and case[-1][0] == 'host':
             hostq = HOST_AS[0] = case[-1][1]
+            case = case[:-1]
+        if case and isinstance(case[-1], tuple) and case[-1][0] == 'tctor':
+            tctorq = T_CTOR[0] = case[-1][1]
             case = case[:-1]
         try:
             v2, _ = run_case(case, ka, T=Tq)
         finally:
             HOST_AS[0] = None
+            T_CTOR[0] = None
         if not any(c == clause for c, _ in v2):
             key = key + '/order-dependent'
             cause = f'{cause}; ' + 'failed during exploration but not on a fresh replay: the outcome depends on earlier executions in the same process (state outside the objects under test leaks between executions)'
-        out.append(dict(key=key, clause=clause, n=len(lst), replay=dict(case=list(case), ka=ka, T=Tq, host=hostq),
+        out.append(dict(key=key, clause=clause, n=len(lst), replay=dict(case=list(case), ka=ka, T=Tq, host=hostq, tctor=tctorq),
                         detail=dict(cause=cause, count=case[2], split=case[3])))
     return n, oc, out, states, sample
 
@@ -483,8 +501,10 @@ def replay(r):
         return c
     case = [unhex(c) for c in r['case']]
     HOST_AS[0] = r.get('host')
+    T_CTOR[0] = r.get('tctor')
     try:
         v, o = run_case(tuple(case), r['ka'], T=r.get('T', 1.0))
     finally:
         HOST_AS[0] = None
+        T_CTOR[0] = None
     return dict(case=[c.hex() if isinstance(c, bytes) else c for c in case], outcome=o, violations=v)
